@@ -97,9 +97,10 @@ std::vector<Scen> scenarios() {
     add("Duplicate(member with key)", dupprep, [](Ctx& c) { c.res_tree = LIB(cJSON_Duplicate(c.trees[0]->child, 1)); c.failed = !c.res_tree; c.repr = wt(c.res_tree); });
     add("Duplicate(array of 6 siblings)", [](Ctx& c) { c.trees.push_back(P("[\"a\",\"b\",\"c\",[1],{\"x\":\"y\"},6]")); }, [](Ctx& c) { c.res_tree = LIB(cJSON_Duplicate(c.trees[0], 1)); c.failed = !c.res_tree; c.repr = wt(c.res_tree); });
     // ---- replace by key
-    for (int cs = 0; cs < 2; cs++) for (int keyed = 0; keyed < 2; keyed++) for (int hit = 0; hit < 2; hit++) {
-        auto prep = [keyed](Ctx& c) { c.trees.push_back(P("{\"k\":[1,2],\"m\":\"n\"}")); cJSON* item; if (!keyed) item = P("\"fresh\""); else { cJSON* src = P("{\"old\":\"keyed\"}"); item = LIB(cJSON_DetachItemFromObject(src, "old")); LIBV(cJSON_Delete(src)); } c.args.push_back(item); };
-        add(std::string("ReplaceItemInObject") + (cs ? "CaseSensitive" : "") + (keyed ? "(keyed item" : "(fresh item") + (hit ? ", existing key)" : ", missing key)"), prep, [cs, hit](Ctx& c) {
+    for (int cs = 0; cs < 2; cs++) for (int keyed = 0; keyed < 3; keyed++) for (int hit = 0; hit < 2; hit++) {
+        auto prep = [keyed](Ctx& c) { c.trees.push_back(P("{\"k\":[1,2],\"m\":\"n\"}")); cJSON* item; if (!keyed) item = P("\"fresh\""); else if (keyed == 1) { cJSON* src = P("{\"old\":\"keyed\"}"); item = LIB(cJSON_DetachItemFromObject(src, "old")); LIBV(cJSON_Delete(src)); }
+            else { cJSON* src = LIB(cJSON_CreateObject()); item = LIB(cJSON_CreateString("const-keyed")); LIBV(cJSON_AddItemToObjectCS(src, "ckey", item)); item = LIB(cJSON_DetachItemViaPointer(src, item)); LIBV(cJSON_Delete(src)); } c.args.push_back(item); };
+        add(std::string("ReplaceItemInObject") + (cs ? "CaseSensitive" : "") + (keyed == 0 ? "(fresh item" : keyed == 1 ? "(keyed item" : "(constant-keyed item") + (hit ? ", existing key)" : ", missing key)"), prep, [cs, hit](Ctx& c) {
             const char* k = hit ? "k" : "zz"; cJSON_bool ok = cs ? LIB(cJSON_ReplaceItemInObjectCaseSensitive(c.trees[0], k, c.args[0])) : LIB(cJSON_ReplaceItemInObject(c.trees[0], k, c.args[0])); c.failed = !ok; if (ok) c.arg_consumed[0] = true; c.repr = wt(c.trees[0]); });
     }
     // ---- set string
